@@ -400,24 +400,28 @@ def m6(ctx):
     # the returned path is href[len(prefix):] / href.removeprefix(prefix), under the startswith(prefix) guard
     rets = [n for n in cfg.nodes if n.kind == "return" and n.ast.value is not None and not (isinstance(n.ast.value, ast.Constant) and n.ast.value.value is None)]
     p_href = hp.params[1] if len(hp.params) > 1 else "href"
-    good = bool(rets)
-    for r in rets:
-        ok_r = False
-        for o in origins(du, r, r.ast.value):
-            v = o.leaf
-            if o.kind != "expr" or v is None:
-                continue
-            for x in ast.walk(v):
-                if isinstance(x, ast.Subscript) and isinstance(x.slice, ast.Slice) and x.slice.upper is None and isinstance(x.slice.lower, ast.Call) \
-                        and dotted(x.slice.lower.func) == "len":
-                    bo = origins(du, o.node, x.value)
-                    if bo and all(b.kind == "param" and b.name == p_href for b in bo):
-                        ok_r = True
-                if isinstance(x, ast.Call) and isinstance(x.func, ast.Attribute) and x.func.attr == "removeprefix":
-                    bo = origins(du, o.node, x.func.value)
-                    if bo and all(b.kind == "param" and b.name == p_href for b in bo):
-                        ok_r = True
-        good = good and ok_r
+    def removes_prefix(node, e, depth=0) -> bool:
+        """*e* is built from href[len(prefix):] / href.removeprefix(prefix) (possibly with a '/' put in front)."""
+        if depth > 6:
+            return False
+        for x in ast.walk(e):
+            if isinstance(x, ast.Subscript) and isinstance(x.slice, ast.Slice) and x.slice.upper is None and isinstance(x.slice.lower, ast.Call) \
+                    and dotted(x.slice.lower.func) == "len":
+                bo = origins(du, node, x.value)
+                if bo and all(b.kind == "param" and b.name == p_href for b in bo):
+                    return True
+            if isinstance(x, ast.Call) and isinstance(x.func, ast.Attribute) and x.func.attr == "removeprefix":
+                bo = origins(du, node, x.func.value)
+                if bo and all(b.kind == "param" and b.name == p_href for b in bo):
+                    return True
+        names = [x for x in ast.walk(e) if isinstance(x, ast.Name) and isinstance(x.ctx, ast.Load)]
+        for nm in names:
+            os_ = [o for o in origins(du, node, nm) if o.kind == "expr" and o.leaf is not None and o.leaf is not nm]
+            if os_ and all(removes_prefix(o.node, o.leaf, depth + 1) for o in os_):
+                return True
+        return False
+
+    good = bool(rets) and all(removes_prefix(r, r.ast.value) for r in rets)
     obs.append(ctx.ob(good, hp.qualname, hp.where, "href_to_path removes exactly the prefix", "href[len(script_name):]",
                       "href_to_path does not compute the path as href[len(prefix):] / href.removeprefix(prefix)"))
     rh = ctx.func("xandikos.webdav.read_href_element")
